@@ -1146,6 +1146,31 @@ func runCase(e *common.Env, id string, variant int) {
 			calls = append(calls[:pos], append([]callSpec{{kind: 'X', ref: r, marker: 995000}}, calls[pos:]...)...)
 		}
 	}
+	if variant == 1 {
+		// Redirect for a reference that has a translation already - copied
+		// explicitly, reached as part of an earlier graph or as an alias on a
+		// chain, or redirected before: the new target replaces the old one for
+		// every later copy
+		var copied []pdf.Reference
+		for _, c := range calls {
+			if c.kind == 'R' {
+				copied = append(copied, c.ref)
+			}
+		}
+		pool := all
+		if len(copied) > 0 && g.intn(3) != 0 {
+			pool = copied
+		}
+		r := pool[g.intn(len(pool))]
+		calls = append(calls, callSpec{kind: 'X', ref: r, marker: 996000})
+		if g.intn(3) == 0 {
+			calls = append(calls, callSpec{kind: 'X', ref: r, marker: 996001}) // twice: the last one counts
+		}
+		calls = append(calls, callSpec{kind: 'R', ref: r})
+		if g.intn(2) == 0 {
+			calls = append(calls, callSpec{kind: 'R', ref: all[g.intn(len(all))]})
+		}
+	}
 
 	// values copied now and written later, in any order, with other copies in between
 	if variant == 0 && g.intn(4) == 0 {
@@ -1285,7 +1310,7 @@ func execCase(e *common.Env, id string, cfg caseCfg) {
 			} else {
 				redirectOnBroken = true
 			}
-			if seenCopy {
+			if seenCopy || redirected[c.ref] {
 				lateRedirect = true
 			}
 			override[c.ref] = c.marker
@@ -1505,6 +1530,25 @@ func execCase(e *common.Env, id string, cfg caseCfg) {
 			}
 			e.Fail("second-copy-differs", fmt.Sprintf("CopyReference(%v) returned %v, and then %v (err=%v)", c.ref, results[i], t, err), caseInfo)
 			outsideHyp = true
+		}
+	}
+	// Redirect replaces the object for every later copy: the reference now
+	// copies to the target given in the last Redirect for it (documented
+	// behaviour, whether or not it had a translation before)
+	lastRedirect := map[pdf.Reference]int{}
+	for i, c := range calls {
+		if c.kind == 'X' {
+			lastRedirect[c.ref] = i
+		}
+	}
+	for i, c := range calls {
+		if c.kind != 'X' || lastRedirect[c.ref] != i {
+			continue
+		}
+		t, err := cp.CopyReference(c.ref)
+		if err != nil || pdf.Object(t) != results[i] {
+			e.Fail("redirect-not-honoured", fmt.Sprintf("after Redirect(%v, %v) CopyReference(%v) returns %v (err=%v)", c.ref, results[i], c.ref, t, err), caseInfo)
+			break
 		}
 	}
 	// the real translation map, for the references the copy must have touched
@@ -1874,7 +1918,7 @@ func main() {
 	n := e.Pick(5000, 100000)
 	for i := 0; i < n; i++ {
 		variant := 0
-		if i%25 == 24 {
+		if i%12 == 11 {
 			variant = 1
 		}
 		runCase(e, fmt.Sprintf("g%d", i), variant)
